@@ -24,6 +24,8 @@ class CallMixin:
 
     def getattr_value(self, base, name, node=None, default=None):
         k = base.k
+        if k in ('real', 'earr'):
+            return self.np_attr(base, name, node)
         if k == 'obj' and '__store__' in self.st.heap[base.t].f and name in ('items', 'values', 'keys', 'get'):
             # an instance of a dict subclass (collections.defaultdict): dictionary methods act on its store
             return SV('func', FuncVal(builtin='meth:' + name, bound=self.st.heap[base.t].f['__store__'], name=name))
